@@ -1406,3 +1406,19 @@ data: [DONE]\n\n";
         verify_snapshot(&log, snapshot_path).expect("continuity snapshot verify");
     }
 }
+
+/// Verification exports (compiled only with `--cfg rip_verif`).
+#[cfg(rip_verif)]
+pub mod verif_hooks {
+    use super::*;
+
+    pub async fn session_emit(handle: &SessionHandle, event_log: &EventLog, event: Event) {
+        crate::session::verif_hooks::emit_event_raw(
+            event,
+            &handle.sender,
+            &handle.events,
+            event_log,
+        )
+        .await;
+    }
+}
